@@ -6,7 +6,7 @@
    Taylor regime.  Real-number reading. *)
 From Coq Require Import Reals ZArith List Bool Lra Lia.
 From Coquelicot Require Import Coquelicot.
-From Sky Require Import Num NumR G_llh M_Llh S_Llh P_Llh P_LlhValue P_LlhDeriv P_WeightsDeriv.
+From Sky Require Import Num NumR G_llh M_Llh S_Llh S_LlhGrad P_Llh P_LlhValue P_LlhDeriv P_WeightsDeriv.
 Import ListNotations.
 Open Scope R_scope.
 
@@ -85,9 +85,214 @@ Section G.
       + instantiate (1 := - ((N - INR (length Xs)) / (N - ns * f t0)) * ns * df).
         auto_derive; [split; [exists df; exact Hf|split; [unfold Rdiv, Rminus in Hpos; exact Hpos|trivial]]|].
         replace (Derive (fun x : R => f x) t0) with df by (symmetry; apply is_derive_unique; exact Hf).
-        field. split; [|exact HN]. intros E. apply Hne.
-        replace (N - ns * f t0) with (N * (1 - ns * f t0 / N)) by (field; exact HN). rewrite <- E at 2.
-        unfold Rdiv. ring_simplify. lra.
+        field. split; [exact Hne|exact HN].
     - unfold plus; cbn. ring.
+  Qed.
+
+  (* ---- MultiDatasetTCLLHRatio.evaluate, entries p <> ns *)
+  Lemma multi_grad_p_sum opa ns (l : list (R * R * (R * list R * list R))) :
+    fold_left (fun acc p =>
+                 let fj := fst (fst p) in let dfj := snd (fst p) in
+                 let Nj := fst (fst (snd p)) in let Rj := snd (fst (snd p)) in let dRj := snd (snd p) in
+                 let nsj := k_nsf Nm ns fj in
+                 let gns := evaluate_grad_ns Nm opa Nj nsj Rj in
+                 let gp := evaluate_grad_p Nm opa Nj nsj Rj dRj in
+                 k_multi_grad_p Nm acc (k_multi_ns_summand Nm gns ns dfj) gp) l 0
+    = Rsum (map (fun p => evaluate_grad_ns Nm opa (fst (fst (snd p))) (ns * fst (fst p)) (snd (fst (snd p)))
+                          * ns * snd (fst p)
+                          + evaluate_grad_p Nm opa (fst (fst (snd p))) (ns * fst (fst p))
+                                            (snd (fst (snd p))) (snd (snd p))) l).
+  Proof.
+    assert (G : forall acc,
+      fold_left (fun acc p =>
+                 let fj := fst (fst p) in let dfj := snd (fst p) in
+                 let Nj := fst (fst (snd p)) in let Rj := snd (fst (snd p)) in let dRj := snd (snd p) in
+                 let nsj := k_nsf Nm ns fj in
+                 let gns := evaluate_grad_ns Nm opa Nj nsj Rj in
+                 let gp := evaluate_grad_p Nm opa Nj nsj Rj dRj in
+                 k_multi_grad_p Nm acc (k_multi_ns_summand Nm gns ns dfj) gp) l acc
+      = acc + Rsum (map (fun p => evaluate_grad_ns Nm opa (fst (fst (snd p))) (ns * fst (fst p)) (snd (fst (snd p)))
+                          * ns * snd (fst p)
+                          + evaluate_grad_p Nm opa (fst (fst (snd p))) (ns * fst (fst p))
+                                            (snd (fst (snd p))) (snd (snd p))) l)).
+    { induction l as [|p l IH]; intros acc; cbn [fold_left map]; [cbn; lra|].
+      cbv zeta in *. rewrite IH, K_multi_grad_p, K_multi_ns_summand, K_nsf. unfold Rsum. cbn [fold_right]. lra. }
+    rewrite G. lra.
+  Qed.
+
+  Lemma combine_map2 {A B C} (g : A -> B) (h : A -> C) (l : list A) :
+    combine (map g l) (map h l) = map (fun a => (g a, h a)) l.
+  Proof. induction l; cbn; congruence. Qed.
+
+  (* side conditions of one dataset at the point t0 *)
+  Definition ds_ok (opa ns t0 : R) (d : dsfun) : Prop :=
+    dq_N d <> 0 /\ 0 < 1 - ns * dq_f d t0 / dq_N d /\ is_derive (dq_f d) t0 (dq_df d)
+    /\ List.Forall2 (fun g dg => is_derive g t0 dg) (dq_R d) (dq_dR d)
+    /\ List.Forall (fun g => ns * dq_f d t0 * Xof (dq_N d) (g t0) <> opa - 1) (dq_R d).
+
+  Lemma dataset_eval_derive opa ns t0 (d : dsfun) :
+    0 < opa -> ds_ok opa ns t0 d ->
+    is_derive (fun t => evaluate_value Nm opa (dq_N d) (ns * dq_f d t) (at_t (dq_R d) t)) t0
+      (evaluate_grad_ns Nm opa (dq_N d) (ns * dq_f d t0) (at_t (dq_R d) t0) * ns * dq_df d
+       + evaluate_grad_p Nm opa (dq_N d) (ns * dq_f d t0) (at_t (dq_R d) t0) (dq_dR d)).
+  Proof.
+    intros Hopa (HN & Hpos & Hf & Hd & Hthr).
+    set (XF := map (fun g : R -> R => fun t => k_Xi Nm (g t) (dq_N d)) (dq_R d)).
+    assert (EX : forall t, map (fun g => g t) XF = Xs Nm (dq_N d) (at_t (dq_R d) t)).
+    { intros t. unfold XF, Xs, at_t. rewrite !map_map. reflexivity. }
+    apply (is_derive_ext (fun t => log_lambda Nm opa (dq_N d) (ns * dq_f d t) (map (fun g => g t) XF))).
+    { intros t. rewrite EX. reflexivity. }
+    unfold evaluate_grad_ns, evaluate_grad_p. rewrite <- EX.
+    replace (dXs Nm (dq_N d) (dq_dR d)) with (map (fun dr => dr / dq_N d) (dq_dR d))
+      by (unfold dXs; apply map_ext; intros a; rewrite K_dXi; reflexivity).
+    apply dataset_term_derive; try assumption.
+    - unfold XF. clear - Hd HN. induction Hd as [|g dg l l' Hg _ IH]; cbn [map]; constructor; [|exact IH].
+      apply (is_derive_ext (fun t => (g t - 1) / dq_N d)); [intros t; rewrite K_Xi; reflexivity|].
+      auto_derive; [exists dg; exact Hg|].
+      replace (Derive (fun x : R => g x) t0) with dg by (symmetry; apply is_derive_unique; exact Hg).
+      field. exact HN.
+    - unfold XF. clear - Hthr. induction Hthr as [|g l Hg _ IH]; cbn [map]; constructor; [|exact IH].
+      rewrite K_Xi. exact Hg.
+  Qed.
+
+  (* C02.5 (p): d/dp sum_j L_j(ns f_j(p), R_j(p)) = sum_j (dL_j/dns_j * ns * df_j/dp + dL_j/dp),
+     which is what the loop of MultiDatasetTCLLHRatio.evaluate accumulates in grads[pmask] *)
+  Theorem multi_value_p_derive opa ns t0 (l : list dsfun) :
+    0 < opa -> List.Forall (ds_ok opa ns t0) l ->
+    is_derive (fun t => multi_value Nm opa ns (map (fun d => dq_f d t) l)
+                                     (map (fun d => (dq_N d, at_t (dq_R d) t)) l)) t0
+      (multi_grad_p Nm opa ns (map (fun d => dq_f d t0) l) (map dq_df l)
+                    (map (fun d => (dq_N d, at_t (dq_R d) t0, dq_dR d)) l)).
+  Proof.
+    intros Hopa H. unfold multi_grad_p. rewrite !combine_map2. cbn [nzero RNum].
+    rewrite multi_grad_p_sum, map_map. cbn [fst snd].
+    apply (is_derive_ext
+             (fun t => Rsum (map (fun g => g t)
+                (map (fun d => fun t => evaluate_value Nm opa (dq_N d) (ns * dq_f d t) (at_t (dq_R d) t)) l)))).
+    { intros t. unfold multi_value. rewrite combine_map2, nsum_R, !map_map. cbn [fst snd].
+      f_equal; apply map_ext; intros d; rewrite ?K_nsf; reflexivity. }
+    apply Rsum_derive.
+    induction H as [|d l' Hd _ IH]; cbn [map]; constructor; [|exact IH].
+    apply dataset_eval_derive; assumption.
+  Qed.
+
+  (* ---- second derivative in ns *)
+  Lemma ev_nsgrad_derive opa ns x :
+    0 < opa -> ns * x <> opa - 1 ->
+    is_derive (fun t => ev_nsgrad Nm opa t x) ns
+      (if Rlt_dec (opa - 1) (ns * x) then - (ev_nsgrad Nm opa ns x * ev_nsgrad Nm opa ns x)
+       else - (x * x) / (opa * opa)).
+  Proof.
+    intros Hopa Hne. destruct (Rlt_dec (opa - 1) (ns * x)) as [Hs|Hu].
+    - rewrite (ev_nsgrad_stable erfR opa ns x Hs).
+      apply (is_derive_ext_loc (fun t => x / (1 + t * x))).
+      + destruct (loc_lt_mul _ _ _ Hs) as (eps & He). exists eps. intros t Ht.
+        symmetry. apply ev_nsgrad_stable. apply He. exact Ht.
+      + apply nsgrad_stable_derive. lra.
+    - assert (Hlt : ns * x < opa - 1) by lra.
+      apply (is_derive_ext_loc (fun t => (1 - (t * x - (opa - 1)) / opa) * x / opa)).
+      + destruct (loc_gt_mul _ _ _ Hlt) as (eps & He). exists eps. intros t Ht.
+        symmetry. apply ev_nsgrad_unstable. specialize (He t Ht). lra.
+      + auto_derive; [trivial|]. field. lra.
+  Qed.
+
+  (* what calculate_ns_grad2 leaves out for one event in the Taylor regime *)
+  Definition grad2_gap (opa ns x : R) : R :=
+    if Rlt_dec (opa - 1) (ns * x) then 0
+    else ev_nsgrad Nm opa ns x * ev_nsgrad Nm opa ns x - (x * x) / (opa * opa).
+
+  (* the exact statement: the derivative of the ns-gradient is the value returned by
+     calculate_ns_grad2 plus the gap of every event in the Taylor regime (no gap: stable) *)
+  Theorem ns_grad2_exact opa N ns (Rs : list R) (nb : R) :
+    0 < opa -> N - ns <> 0 -> N = INR (length Rs) + nb ->
+    List.Forall (fun r => ns * Xof N r <> opa - 1) Rs ->
+    is_derive (fun t => evaluate_grad_ns Nm opa N t Rs) ns
+      (evaluate_ns_grad2 Nm opa N ns Rs nb + Rsum (map (fun r => grad2_gap opa ns (Xof N r)) Rs)).
+  Proof.
+    intros Hopa HNns HN Hthr.
+    apply (is_derive_ext (fun t => Rsum (map (fun g => g t) (map (fun r => fun t => ev_nsgrad Nm opa t (Xof N r)) Rs))
+                                   + - ((N - INR (length Rs)) / (N - t)))).
+    { intros t. unfold evaluate_grad_ns, grad_ns, Xs.
+      rewrite K_grad_ns, nsum_R, nlen_R, !map_length, !map_map. unfold Rminus at 2.
+      assert (Em : map (fun x => ev_nsgrad Nm opa t (Xof N x)) Rs = map (fun x => ev_nsgrad Nm opa t (k_Xi Nm x N)) Rs)
+        by (apply map_ext; intros r; rewrite K_Xi; reflexivity).
+      rewrite Em. reflexivity. }
+    unfold evaluate_ns_grad2, ns_grad2, Xs.
+    rewrite K_nsgrad2, K_N_total, nsum_R, nlen_R, !map_length, !map_map, <- HN.
+    eapply is_derive_eq.
+    - apply (is_derive_plus
+               (fun t => Rsum (map (fun g => g t) (map (fun r => fun t => ev_nsgrad Nm opa t (Xof N r)) Rs)))
+               (fun t => - ((N - INR (length Rs)) / (N - t)))).
+      + apply Rsum_derive.
+        instantiate (1 := map (fun r => if Rlt_dec (opa - 1) (ns * Xof N r)
+                                        then - (ev_nsgrad Nm opa ns (Xof N r) * ev_nsgrad Nm opa ns (Xof N r))
+                                        else - (Xof N r * Xof N r) / (opa * opa)) Rs).
+        clear - Hthr Hopa. induction Hthr as [|r l Hr _ IH]; cbn [map]; constructor; [|exact IH].
+        apply ev_nsgrad_derive; assumption.
+      + apply bkg_grad_derive. exact HNns.
+    - unfold plus; cbn.
+      assert (E : Rsum (map (fun r => if Rlt_dec (opa - 1) (ns * Xof N r)
+                                        then - (ev_nsgrad Nm opa ns (Xof N r) * ev_nsgrad Nm opa ns (Xof N r))
+                                        else - (Xof N r * Xof N r) / (opa * opa)) Rs)
+                  = - Rsum (map (fun x => ev_nsgrad Nm opa ns ((x - 1) / N) * ev_nsgrad Nm opa ns ((x - 1) / N)) Rs)
+                    + Rsum (map (fun r => grad2_gap opa ns (Xof N r)) Rs)).
+      { clear. induction Rs as [|r l IH]; cbn [map Rsum fold_right]; [lra|].
+        unfold Rsum in IH. rewrite IH. unfold grad2_gap, Xof.
+        destruct (Rlt_dec (opa - 1) (ns * ((r - 1) / N))); unfold Rdiv; lra. }
+      rewrite E. lra.
+  Qed.
+
+  (* ... and the gap is not zero: calculate_ns_grad2 is NOT the derivative of the
+     ns-gradient in the Taylor regime (the property only asks for the stable regime) *)
+  Theorem ns_grad2_unstable_refuted :
+    exists opa N ns Rs nb D,
+      0 < opa /\ N - ns <> 0 /\ N = INR (length Rs) + nb
+      /\ List.Forall (fun r => ns * Xof N r < opa - 1) Rs
+      /\ is_derive (fun t => evaluate_grad_ns Nm opa N t Rs) ns D
+      /\ D <> evaluate_ns_grad2 Nm opa N ns Rs nb.
+  Proof.
+    exists (1 / 2), 1, (3 / 4), [0], 0.
+    assert (Hu : ~ 1 / 2 - 1 < 3 / 4 * Xof 1 0) by (unfold Xof; lra).
+    pose proof (ns_grad2_exact (1 / 2) 1 (3 / 4) [0] 0) as H.
+    eexists. split; [lra|]. split; [lra|]. split; [cbn; lra|].
+    split; [constructor; [unfold Xof; lra|constructor]|].
+    split.
+    - apply H; [lra|lra|cbn; lra|constructor; [unfold Xof; lra|constructor]].
+    - cbn [map Rsum fold_right]. unfold grad2_gap.
+      destruct (Rlt_dec (1 / 2 - 1) (3 / 4 * Xof 1 0)) as [Hc|_]; [contradiction|].
+      rewrite (ev_nsgrad_unstable erfR (1 / 2) (3 / 4) (Xof 1 0) Hu). unfold Xof. lra.
+  Qed.
+
+  (* the multi-dataset function: d/dns sum_j f_j g_j(ns f_j) = sum_j f_j^2 g_j'(ns f_j)
+     (MultiDatasetTCLLHRatio.calculate_ns_grad2), all events of all datasets stable *)
+  Theorem multi_ns_grad2_is_derivative opa ns (l : list (R * (R * list R * R))) :
+    0 < opa ->
+    List.Forall (fun p => let f := fst p in let N := fst (fst (snd p)) in
+                          let Rs := snd (fst (snd p)) in let nb := snd (snd p) in
+                          N - ns * f <> 0 /\ N = INR (length Rs) + nb
+                          /\ List.Forall (fun r => opa - 1 < ns * f * Xof N r) Rs) l ->
+    is_derive (fun t => multi_grad_ns Nm opa t (map fst l) (map (fun p => fst (snd p)) l)) ns
+              (multi_ns_grad2 Nm opa ns (map fst l) (map snd l)).
+  Proof.
+    intros Hopa H.
+    apply (is_derive_ext
+             (fun t => Rsum (map (fun g => g t)
+                (map (fun p => fun t => evaluate_grad_ns Nm opa (fst (fst (snd p))) (t * fst p) (snd (fst (snd p))) * fst p) l)))).
+    { intros t. rewrite multi_grad_ns_sum, combine_map2, !map_map. reflexivity. }
+    unfold multi_ns_grad2. rewrite combine_map2, nsum_R, map_map. cbn [fst snd].
+    apply Rsum_derive.
+    induction H as [|p l' (HN & HNb & Hst) _ IH]; cbn [map]; constructor; [|exact IH].
+    rewrite K_multi_nsgrad2_term, K_nsf.
+    eapply is_derive_eq.
+    - apply (is_derive_mult (fun t => evaluate_grad_ns Nm opa (fst (fst (snd p))) (t * fst p) (snd (fst (snd p))))
+                            (fun _ => fst p) ns).
+      + apply (is_derive_comp (fun u => evaluate_grad_ns Nm opa (fst (fst (snd p))) u (snd (fst (snd p))))
+                              (fun t => t * fst p) ns).
+        * apply (ns_grad2_is_derivative erfR opa (fst (fst (snd p))) (ns * fst p) (snd (fst (snd p))) (snd (snd p)));
+            assumption.
+        * instantiate (1 := fst p). auto_derive; [trivial|]. ring.
+      + apply is_derive_const.
+      + intros n m. apply Rmult_comm.
+    - unfold plus, mult, scal, zero; cbn. unfold mult; cbn. ring.
   Qed.
 End G.
